@@ -38,8 +38,8 @@ def e3_step(ctx):
     for v in out["violations"]:
         if any(e.get("status") == "known" and e.get("e3_query") == v["query"] and e.get("e3_tags") == v["tags"] for e in known):
             continue
-        replay = ("import sys, warnings, fractions; warnings.filterwarnings('ignore'); sys.path[:0]=[%r,%r]\nimport sympy, vyxal.helpers, vyxal.elements as E\nfrom vyxal.context import Context\n"
-                  "# %s\nprint(%r)\nsys.exit(1)\n" % (REPO, VERIF, v["query"], v["why"]))
+        replay = ("import subprocess, sys\n# %s\nsys.exit(subprocess.call([sys.executable, '-m', 'hlib.c07_e3', '--replay', %r, %r, %r, %r, %r, %r], cwd=%r, env=dict(__import__('os').environ, PYTHONPATH=%r)))\n"
+                  % (v["why"].replace("\n", " "), REPO, v["query"], v["tags"][0], v["tags"][1], v["a"], v["b"], VERIF, REPO + ":" + VERIF))
         res["violations"].append(("C07 (E3, replayed on the real function): " + v["why"], replay))
     return res
 
